@@ -83,6 +83,28 @@ func main() {
 			kv.WriteResult(*out, res)
 		}
 		fmt.Fprintf(stdout, "replay: cases=%d nontrivial=%d monitor=%v counters=%v\n", res.Evaluations, res.DistinctNontrivial, res.MonitorHitCount, res.Counters)
+	case "gassweep":
+		fs := flag.NewFlagSet("gassweep", flag.ExitOnError)
+		_ = fs.String("driver", "", "path to olpdriver")
+		seed := fs.Uint64("seed", 1, "seed")
+		cases := fs.Int("cases", 6, "cases (warm-up history + sweeps)")
+		warm := fs.Int("warm", 6, "warm-up blocks per case")
+		targets := fs.Int("targets", 4, "swept transactions per case")
+		only := fs.String("monitors", "", "comma separated signature prefixes to report (default all)")
+		onlyCase := fs.Int("case", -1, "run this case only (replay: seed and case are in the header of the replay file)")
+		out := fs.String("out", "", "result json")
+		fs.Parse(os.Args[2:])
+		stdout := apph.SilenceAppLogs()
+		res, err := apph.RunGasSweep(*seed, *cases, *warm, *targets, *only, *onlyCase)
+		apph.Cleanup()
+		if err != nil {
+			fmt.Fprintln(stdout, "olh gassweep:", err)
+			os.Exit(2)
+		}
+		if *out != "" {
+			kv.WriteResult(*out, res)
+		}
+		fmt.Fprintf(stdout, "gassweep: cases=%d nontrivial=%d monitor=%v counters=%v\n", res.Evaluations, res.DistinctNontrivial, res.MonitorHitCount, res.Counters)
 	case "ledger", "ledger-direct":
 		fs := flag.NewFlagSet(os.Args[1], flag.ExitOnError)
 		_ = fs.String("driver", "", "path to olpdriver")
